@@ -1,5 +1,434 @@
-//! C17 — not built yet.
-#![allow(unused)]
+//! C17 — statistical transforms (logistic, logit, boxcox, boxcox_shifted, softmax) and binom_coeff.
+use crate::libm;
 use crate::util::*;
-pub fn gen(_tier: &str, _seed: u64, _outdir: &str) { eprintln!("C17: gen not implemented"); std::process::exit(3); }
-pub fn oracle(_tier: &str, _seed: u64) -> (u64, Vec<Finding>) { eprintln!("C17: oracle not implemented"); std::process::exit(3); }
+use compute::functions::{binom_coeff, binom_coeff_alt, boxcox, boxcox_shifted, logistic, logit, softmax};
+use std::collections::BTreeMap;
+
+const EPS: f64 = f64::EPSILON; // 2^-52
+
+// ------------------------------------------------------------------------------------------------
+// independent references
+// ------------------------------------------------------------------------------------------------
+
+/// Pascal triangle in u128 up to row `nmax` (nmax <= 130 keeps every entry below 2^128)
+fn pascal(nmax: usize) -> Vec<Vec<u128>> {
+    let mut t: Vec<Vec<u128>> = vec![vec![1]];
+    for n in 1..=nmax {
+        let p = &t[n - 1];
+        let mut row = vec![1u128; n + 1];
+        for k in 1..n { row[k] = p[k - 1].saturating_add(p[k]); }
+        t.push(row);
+    }
+    t
+}
+
+/// exact C(n,k) for k <= n by the multiplicative recurrence in u128, `None` as soon as a value reaches 2^64
+/// (C(n,i-1) < 2^64 and n < 2^64, so the product fits in u128; the division is exact)
+fn binom_u128(n: u64, k: u64) -> Option<u64> {
+    let nk = k.min(n - k);
+    let mut c: u128 = 1;
+    for i in 1..=nk {
+        c = c * (n - i + 1) as u128 / i as u128;
+        if c > u64::MAX as u128 { return None; } // C(n,i) grows up to the middle: true overflow of C(n,k)
+    }
+    Some(c as u64)
+}
+
+/// (y^l - 1)/l for y > 0 (ln y at l = 0), evaluated without cancellation:
+/// ln y * sum_k u^k/(k+1)!  with u = l ln y when |u| is small, the direct formula otherwise
+fn boxcox_ref(y: f64, l: f64) -> f64 {
+    let ln = y.ln();
+    if l == 0.0 { return ln; }
+    let u = l * ln;
+    if u.abs() < 0.25 {
+        let (mut term, mut s) = (1.0f64, 1.0f64);
+        for k in 1..40 { term *= u / (k as f64 + 1.0); s += term; }
+        ln * s
+    } else {
+        (y.powf(l) - 1.0) / l
+    }
+}
+
+/// breadcrumbs (util::crumb) cost a formatted string and a pwrite: build them only when the driver asked for them
+fn crumbs_on() -> bool {
+    static ON: std::sync::OnceLock<bool> = std::sync::OnceLock::new();
+    *ON.get_or_init(|| std::env::var("HARNESS_CRUMB").is_ok())
+}
+macro_rules! crumbf { ($($a:tt)*) => { if crumbs_on() { crumb(&format!($($a)*)); } } }
+
+struct Found { worst: BTreeMap<String, (f64, String, String)> }
+impl Found {
+    fn new() -> Self { Found { worst: BTreeMap::new() } }
+    fn fail(&mut self, class: &str, sev: f64, what: String, input: String) {
+        let e = self.worst.entry(class.to_string()).or_insert((-1.0, String::new(), String::new()));
+        if sev > e.0 { *e = (sev, what, input); }
+    }
+    fn done(self) -> Vec<Finding> { self.worst.into_iter().map(|(class, (_, what, input))| Finding { class, what, input }).collect() }
+}
+
+/// every `stride`-th non-negative f32 in [lo, hi] (bit patterns in increasing order)
+fn f32_up(lo: f32, hi: f32, stride: u32, mut f: impl FnMut(f64)) {
+    let (mut i, e) = (lo.to_bits(), hi.to_bits());
+    while i <= e { f(f32::from_bits(i) as f64); match i.checked_add(stride.max(1)) { Some(j) => i = j, None => break } }
+}
+
+fn vec_s(v: &[f64]) -> String { format!("[{}]", v.iter().map(|x| format!("{:e}", x)).collect::<Vec<_>>().join(", ")) }
+
+// ------------------------------------------------------------------------------------------------
+// failure-search oracle: the property statement on the implementation
+// ------------------------------------------------------------------------------------------------
+pub fn oracle(tier: &str, seed: u64) -> (u64, Vec<Finding>) {
+    let thorough = tier == "thorough";
+    let mut r = Rng::new(seed ^ 0xC17);
+    let mut fd = Found::new();
+    let mut tried = 0u64;
+
+    // ---- logistic: range [0,1], logistic(-x) = 1 - logistic(x), non-decreasing --------------------------------
+    {
+        let (mut prev_a, mut prev_b, mut prev_x) = (logistic(0.0), logistic(-0.0), 0.0f64);
+        let mut chk = |x: f64, tried: &mut u64, fd: &mut Found| {
+            *tried += 1;
+            // dense sweep of a loop-free function: one breadcrumb per 1024 points
+            if *tried & 0x3ff == 0 { crumbf!("logistic sweep at x={:e} (and -x)", x); }
+            let (a, b) = (logistic(x), logistic(-x));
+            if !(0.0..=1.0).contains(&a) { fd.fail("logistic:out-of-range", 1.0, format!("logistic({:e}) = {:e} outside [0,1]", x, a), format!("x={:e}", x)); }
+            if !(0.0..=1.0).contains(&b) { fd.fail("logistic:out-of-range", 1.0, format!("logistic({:e}) = {:e} outside [0,1]", -x, b), format!("x={:e}", -x)); }
+            let d = (a + b - 1.0).abs();
+            if !(d <= 4.0 * EPS) { fd.fail("logistic:asymmetric", d, format!("logistic(x) + logistic(-x) - 1 = {:e} at x = {:e}", a + b - 1.0, x), format!("x={:e}", x)); }
+            if x >= prev_x {
+                if !(a >= prev_a) { fd.fail("logistic:not-monotone", prev_a - a, format!("logistic({:e}) = {:e} > logistic({:e}) = {:e}", prev_x, prev_a, x, a), format!("x1={:e} x2={:e}", prev_x, x)); }
+                if !(b <= prev_b) { fd.fail("logistic:not-monotone", b - prev_b, format!("logistic({:e}) = {:e} < logistic({:e}) = {:e}", -prev_x, prev_b, -x, b), format!("x1={:e} x2={:e}", -x, -prev_x)); }
+            }
+            prev_a = a; prev_b = b; prev_x = x;
+        };
+        f32_up(0.0, 745.0, if thorough { 1 } else { 1 << 7 }, |x| chk(x, &mut tried, &mut fd));
+        chk(0.0, &mut tried, &mut fd);
+        let mut xs: Vec<f64> = (0..(if thorough { 200000 } else { 20000 })).map(|_| r.uniform(0.0, 745.0)).collect();
+        xs.sort_by(|a, b| a.partial_cmp(b).unwrap());
+        for x in xs { chk(x, &mut tried, &mut fd); }
+        chk(0.0, &mut tried, &mut fd);
+        // neighbouring doubles around a few points (monotonicity at ulp scale)
+        for c in [1e-3, 0.5, 1.0, 5.0, 20.0, 36.0, 37.0, 100.0, 700.0, 709.0, 744.0] {
+            let mut x: f64 = c;
+            for _ in 0..(if thorough { 20000 } else { 2000 }) { chk(x, &mut tried, &mut fd); x = f64::from_bits(x.to_bits() + 1); }
+            chk(0.0, &mut tried, &mut fd);
+        }
+        for (x, want) in [(f64::NEG_INFINITY, 0.0), (0.0, 0.5), (f64::INFINITY, 1.0)] {
+            tried += 1;
+            if logistic(x) != want { fd.fail("logistic:limit", 1.0, format!("logistic({:e}) = {:e}, expected {:e}", x, logistic(x), want), format!("x={:e}", x)); }
+        }
+    }
+    // ---- logit: inverse of logistic on [0,1], rejection outside -----------------------------------------------
+    {
+        let mut chk = |p: f64, tried: &mut u64, fd: &mut Found| {
+            *tried += 1;
+            if *tried & 0xff == 0 { crumbf!("logit/logistic sweep at p={:e}", p); }
+            match catch(|| logit(p)) {
+                Err(_) => fd.fail("logit:rejects-valid", 1.0, format!("logit({:e}) panicked although 0 <= p <= 1", p), format!("p={:e}", p)),
+                Ok(l) => {
+                    let back = logistic(l);
+                    // working precision of the composition: exp amplifies the rounding of l by |l|
+                    let tol = 8.0 * EPS * (1.0 + l.abs().min(800.0)) * p + 1e-307;
+                    let d = (back - p).abs();
+                    if !(d <= tol) { fd.fail("logit:not-inverse", d / tol, format!("logistic(logit({:e})) = {:e} (logit = {:e}), off by {:e} > {:e}", p, back, l, d, tol), format!("p={:e}", p)); }
+                }
+            }
+        };
+        f32_up(0.0, 1.0, if thorough { 1 << 2 } else { 1 << 9 }, |p| chk(p, &mut tried, &mut fd));
+        for _ in 0..(if thorough { 200000 } else { 20000 }) { let p = r.unit(); chk(p, &mut tried, &mut fd); chk(1.0 - p * 1e-9, &mut tried, &mut fd); chk(p * 1e-200, &mut tried, &mut fd); }
+        for p in [0.0, -0.0, 1.0, 0.5, 5e-324, 1.0 - EPS / 2.0, f64::MIN_POSITIVE] { chk(p, &mut tried, &mut fd); }
+        for p in [-5e-324, -1e-300, -1.0, 1.0 + EPS, 2.0, 1e300, f64::INFINITY, f64::NEG_INFINITY, f64::NAN, -0.5, 1.5] {
+            tried += 1;
+            crumbf!("p={:e}", p);
+            if let Ok(v) = catch(|| logit(p)) { fd.fail("logit:accepts-outside-unit-interval", 1.0, format!("logit({:e}) returned {:e} instead of rejecting the argument", p, v), format!("p={:e}", p)); }
+        }
+        for _ in 0..(if thorough { 20000 } else { 2000 }) {
+            let p = if r.coin(0.5) { -(r.uniform(-700.0, 3.0)).exp() } else { 1.0 + (r.uniform(-36.0, 10.0)).exp() };
+            if (0.0..=1.0).contains(&p) { continue; }
+            tried += 1;
+            crumbf!("p={:e}", p);
+            if let Ok(v) = catch(|| logit(p)) { fd.fail("logit:accepts-outside-unit-interval", 1.0, format!("logit({:e}) returned {:e} instead of rejecting the argument", p, v), format!("p={:e}", p)); }
+        }
+        if logit(0.0) != f64::NEG_INFINITY || logit(1.0) != f64::INFINITY || logit(0.5) != 0.0 { fd.fail("logit:limit", 1.0, "logit(0), logit(0.5), logit(1) are not -inf, 0, +inf".into(), "p in {0, 0.5, 1}".into()); }
+    }
+    // ---- softmax -----------------------------------------------------------------------------------------------
+    {
+        let ncases = if thorough { 6000 } else { 600 };
+        for it in 0..ncases {
+            let n = match it % 6 { 0 => 1 + r.below(8), 1 => 1 + r.below(40), 2 => 1 + r.below(1000), _ => 1 + r.below(200) } as usize;
+            let scale = *r.pick(&[1.0, 10.0, 100.0, 700.0, 1e3, 1e4, 1e4, 1e4]);
+            // entries on the grid 2^-10 so that adding a grid constant is exact (shift invariance is then about softmax alone)
+            let q = |v: f64| (v * 1024.0).round() / 1024.0;
+            let mut x: Vec<f64> = (0..n).map(|_| q(r.uniform(-scale, scale))).collect();
+            if it % 5 == 0 && n >= 2 { let j = r.below(n as u64) as usize; let i = r.below(n as u64) as usize; x[i] = x[j]; } // ties
+            if it % 7 == 0 { let c = q(r.uniform(-scale, scale)); for v in x.iter_mut() { *v = c; } }                 // constant vector
+            tried += 1;
+            let inp = format!("x={}", vec_s(&x));
+            if crumbs_on() { crumb(&inp); }
+            let s = softmax(&x);
+            if s.len() != n { fd.fail("softmax:length", 1.0, format!("output length {} for input length {}", s.len(), n), inp.clone()); continue; }
+            if s.iter().any(|v| !v.is_finite()) {
+                fd.fail("softmax:nonfinite-for-finite-input", 1.0 / n as f64, format!("softmax of a finite vector of length {} (max |x| = {:e}) contains {:e}", n, x.iter().fold(0.0f64, |a, b| a.max(b.abs())), s.iter().find(|v| !v.is_finite()).unwrap()), inp.clone());
+                continue;
+            }
+            if s.iter().any(|v| !(*v >= 0.0)) { fd.fail("softmax:negative", 1.0, "softmax returned a negative component".into(), inp.clone()); }
+            let sum: f64 = { let mut hi = 0.0f64; let mut lo = 0.0f64; for v in &s { let t = hi + v; lo += if hi.abs() >= v.abs() { (hi - t) + v } else { (v - t) + hi }; hi = t; } hi + lo };
+            let tol = (n as f64 + 8.0) * EPS;
+            if !((sum - 1.0).abs() <= tol) { fd.fail("softmax:sum-not-one", (sum - 1.0).abs() / tol, format!("components sum to {:e} (|sum - 1| > {:e}), n = {}", sum, tol, n), inp.clone()); }
+            for i in 0..n { let j = (i + 1 + r.below(n as u64) as usize) % n;
+                if (x[i] <= x[j] && !(s[i] <= s[j])) || (x[i] == x[j] && s[i] != s[j]) {
+                    fd.fail("softmax:order-not-preserved", 1.0, format!("x[{}] = {:e} <= x[{}] = {:e} but softmax gives {:e} > {:e}", i, x[i], j, x[j], s[i], s[j]), inp.clone()); } }
+            // shift by a constant (exact on the grid)
+            let c = q(r.uniform(-scale, scale));
+            let y: Vec<f64> = x.iter().map(|v| v + c).collect();
+            crumbf!("x={}", vec_s(&y));
+            let t = softmax(&y);
+            for i in 0..n {
+                let d = (t[i] - s[i]).abs();
+                let tol = 1e-12 * s[i].abs() + 1e-300;
+                if !(d <= tol) { fd.fail("softmax:not-shift-invariant", if d.is_nan() { 1e300 } else { d / tol }, format!("component {}: softmax(x) = {:e}, softmax(x + {:e}) = {:e}", i, s[i], c, t[i]), inp.clone()); break; }
+            }
+        }
+        // the textbook instances
+        for x in [vec![1000.0, 1000.0], vec![1000.0], vec![-1000.0, -1000.0], vec![1e4, -1e4, 0.0], vec![710.0, 0.0]] {
+            tried += 1;
+            crumbf!("x={}", vec_s(&x));
+            let s = softmax(&x);
+            if s.iter().any(|v| !v.is_finite()) { fd.fail("softmax:nonfinite-for-finite-input", 10.0, format!("softmax({}) = {}", vec_s(&x), vec_s(&s)), format!("x={}", vec_s(&x))); }
+        }
+    }
+    // ---- Box-Cox ------------------------------------------------------------------------------------------------
+    {
+        let lam = |r: &mut Rng, i: u64| -> f64 { match i % 8 { 0 => 0.0, 1 => r.uniform(-1e-8, 1e-8), 2 => (r.uniform(-40.0, -18.0)).exp() * if r.coin(0.5) { 1.0 } else { -1.0 }, 3 => *r.pick(&[1.0, 2.0, -1.0, 0.5, -0.5, 3.0]), _ => r.uniform(-5.0, 5.0) } };
+        let n = if thorough { 400000 } else { 40000 };
+        for i in 0..n {
+            let x = (r.uniform((1e-6f64).ln(), (1e6f64).ln())).exp();
+            let l = lam(&mut r, i);
+            tried += 1;
+            crumbf!("x={:e} lambda={:e}", x, l);
+            match catch(|| boxcox(x, l)) {
+                Err(_) => fd.fail("boxcox:rejects-valid-domain", 1.0, format!("boxcox({:e}, {:e}) panicked although x > 0", x, l), format!("x={:e} lambda={:e}", x, l)),
+                Ok(got) => {
+                    let want = boxcox_ref(x, l);
+                    let d = (got - want).abs(); let tol = 1e-12 * want.abs() + 1e-300;
+                    if !(d <= tol) { fd.fail("boxcox:inaccurate", d / tol, format!("boxcox({:e}, {:e}) = {:e}, (x^l - 1)/l = {:e} (relative error {:e})", x, l, got, want, d / want.abs()), format!("x={:e} lambda={:e}", x, l)); }
+                }
+            }
+            // two-parameter form: shifts of both signs; domain x + alpha > 0
+            let a = match i % 4 { 0 => r.uniform(-2.0, 2.0) * x, 1 => (r.uniform((1e-6f64).ln(), (1e6f64).ln())).exp(), 2 => -(r.uniform((1e-6f64).ln(), (1e6f64).ln())).exp(), _ => r.uniform(-10.0, 10.0) };
+            let xs = if i % 3 == 0 { -x } else { x };
+            let y = xs + a;
+            tried += 1;
+            let inp = format!("x={:e} lambda={:e} alpha={:e}", xs, l, a);
+            if crumbs_on() { crumb(&inp); }
+            let res = catch(|| boxcox_shifted(xs, l, a));
+            if y > 0.0 {
+                match res {
+                    Err(_) => fd.fail("boxcox_shifted:rejects-valid-domain", 1.0, format!("boxcox_shifted({:e}, {:e}, {:e}) panicked although x + alpha = {:e} > 0", xs, l, a, y), inp),
+                    Ok(got) => {
+                        let want = boxcox_ref(y, l);
+                        let d = (got - want).abs(); let tol = 1e-12 * want.abs() + 1e-300;
+                        if !(d <= tol) { fd.fail("boxcox_shifted:inaccurate", d / tol, format!("boxcox_shifted({:e}, {:e}, {:e}) = {:e}, ((x+alpha)^l - 1)/l = {:e}", xs, l, a, got, want), inp); }
+                    }
+                }
+            } else if let Ok(got) = res {
+                fd.fail("boxcox_shifted:accepts-outside-domain", 1.0, format!("boxcox_shifted({:e}, {:e}, {:e}) returned {:e} although x + alpha = {:e} <= 0", xs, l, a, got, y), inp);
+            }
+        }
+        for x in [0.0, -0.0, -1.0, -1e-300, f64::NEG_INFINITY, f64::NAN] { for l in [0.0, 1.0, -0.5] {
+            tried += 1;
+            crumbf!("x={:e} lambda={:e}", x, l);
+            if let Ok(v) = catch(|| boxcox(x, l)) { fd.fail("boxcox:accepts-outside-domain", 1.0, format!("boxcox({:e}, {:e}) returned {:e} although x is not positive", x, l, v), format!("x={:e} lambda={:e}", x, l)); }
+        } }
+    }
+    // ---- binomial coefficient ---------------------------------------------------------------------------------------
+    {
+        let nmax = 130usize;
+        let tri = pascal(nmax);
+        let fits = |v: u128| v <= u64::MAX as u128;
+        for n in 0..=nmax { for k in 0..=n {
+            let want = tri[n][k];
+            if !fits(want) { continue; }
+            tried += 1;
+            crumbf!("n={} k={}", n, k);
+            let got = binom_coeff(n as u64, k as u64);
+            if got as u128 != want {
+                let class = if got == 0 { "binom:zero-without-overflow" } else { "binom:wrong-value" };
+                fd.fail(class, 1.0, format!("binom_coeff({}, {}) = {}, C(n,k) = {} < 2^64", n, k, got, want), format!("n={} k={}", n, k));
+            }
+            let sym = binom_coeff(n as u64, (n - k) as u64);
+            if sym != got { fd.fail("binom:asymmetric", 1.0, format!("binom_coeff({}, {}) = {} but binom_coeff({}, {}) = {}", n, k, got, n, n - k, sym), format!("n={} k={}", n, k)); }
+            if k + 1 <= n && n + 1 <= nmax && fits(tri[n + 1][k + 1]) {
+                let (b, c) = (binom_coeff(n as u64, k as u64 + 1), binom_coeff(n as u64 + 1, k as u64 + 1));
+                if got.checked_add(b) != Some(c) { fd.fail("binom:pascal", 1.0, format!("C({},{}) + C({},{}) = {} + {} but C({},{}) = {}", n, k, n, k + 1, got, b, n + 1, k + 1, c), format!("n={} k={}", n, k)); }
+            }
+        } }
+        // the gamma-based alternative is documented as exact below n ~ 50 (the crate's own test uses 5 <= n <= 45)
+        for n in 0..=45usize { for k in 0..=n {
+            tried += 1;
+            crumbf!("n={} k={} (binom_coeff_alt)", n, k);
+            let got = binom_coeff_alt(n as u64, k as u64);
+            if got as u128 != tri[n][k] { fd.fail("binom_alt:wrong-below-documented-threshold", 1.0, format!("binom_coeff_alt({}, {}) = {}, C(n,k) = {}", n, k, got, tri[n][k]), format!("n={} k={}", n, k)); }
+        } }
+        let m = if thorough { 200000 } else { 20000 };
+        for i in 0..m {
+            // n log-uniform over the whole u64 range; k <= 32 among those whose coefficient fits
+            let bits = 7 + r.below(58);
+            let n = if i % 50 == 0 { u64::MAX - r.below(1000) } else { (1u64 << (bits - 1)) | (r.next() & ((1u64 << (bits - 1)) - 1)) };
+            let mut kmax = 0u64;
+            while kmax < 32 && kmax < n && binom_u128(n, kmax + 1).is_some() { kmax += 1; }
+            let k0 = r.below(kmax + 1);
+            let k = if r.coin(0.4) { n - k0 } else { k0 };
+            tried += 1;
+            crumbf!("n={} k={}", n, k);
+            let want = binom_u128(n, k).unwrap();
+            let got = binom_coeff(n, k);
+            if got != want {
+                let class = if got == 0 { "binom:zero-without-overflow" } else { "binom:wrong-value" };
+                fd.fail(class, 1.0, format!("binom_coeff({}, {}) = {}, C(n,k) = {} < 2^64", n, k, got, want), format!("n={} k={}", n, k));
+            }
+            if k < n { if let (Some(b), Some(c)) = (binom_u128(n, k + 1), if n < u64::MAX { binom_u128(n + 1, k + 1) } else { None }) {
+                let (gb, gc) = (binom_coeff(n, k + 1), binom_coeff(n + 1, k + 1));
+                if gb != b || gc != c || got.checked_add(gb) != Some(gc) { fd.fail("binom:pascal", 1.0, format!("C({},{}) + C({},{}) = {} + {} but C({},{}) = {}", n, k, n, k + 1, got, gb, n + 1, k + 1, gc), format!("n={} k={}", n, k)); }
+            } }
+        }
+    }
+    (tried, fd.done())
+}
+
+// ------------------------------------------------------------------------------------------------
+// correspondence cases
+// ------------------------------------------------------------------------------------------------
+fn one(f: impl FnOnce() -> f64) -> (libm::Table, Tm) {
+    libm::start();
+    let r = catch(f);
+    let t = libm::stop();
+    (t, outcome_list(&r.map(|x| vec![x])))
+}
+fn many(f: impl FnOnce() -> Vec<f64>) -> (libm::Table, Tm) {
+    libm::start();
+    let r = catch(f);
+    let t = libm::stop();
+    (t, outcome_list(&r))
+}
+fn out_n(r: &Result<u64, String>) -> Tm { match r { Ok(v) => app("Val", vec![Tm::N(*v)]), Err(_) => Tm::Raw("Panic".into()) } }
+
+pub fn gen(tier: &str, seed: u64, outdir: &str) {
+    let thorough = tier == "thorough";
+    let mut r = Rng::new(seed ^ 0x9C17);
+    let k = if thorough { 12 } else { 1 };
+    let mut all: Vec<(Tm, String, bool)> = vec![];
+    let specials = [0.0, -0.0, 1.0, -1.0, 0.5, f64::INFINITY, f64::NEG_INFINITY, f64::NAN, 5e-324, -5e-324, f64::MIN_POSITIVE, 1e-300, -1e-300, 1e300, -1e300, f64::MAX, f64::MIN];
+
+    // logistic
+    let mut lx: Vec<(f64, &str)> = vec![];
+    for _ in 0..150 * k { lx.push((r.uniform(-40.0, 40.0), "logistic/core")); }
+    for _ in 0..100 * k { lx.push((r.uniform(-745.0, 745.0), "logistic/tails")); }
+    for _ in 0..50 * k { lx.push(((r.uniform(-700.0, 0.0)).exp() * if r.coin(0.5) { 1.0 } else { -1.0 }, "logistic/tiny")); }
+    for _ in 0..30 * k { lx.push((r.uniform(-12.0, 12.0).round(), "logistic/integer")); }
+    for x in specials.iter().chain([709.0, 709.782712893384, 709.7827128933841, 710.0, -709.782712893384, -710.0, 745.13, -745.13, 746.0, -746.0, 36.7368005696771, 36.8, 37.0].iter()) { lx.push((*x, "logistic/special")); }
+    for (x, tag) in lx {
+        let (t, e) = one(|| logistic(x));
+        all.push((app("CLogistic", vec![libm_table(&t), Tm::F(x), e]), tag.into(), x != 0.0));
+    }
+    // logit
+    let mut lp: Vec<(f64, &str)> = vec![];
+    for _ in 0..150 * k { lp.push((r.unit(), "logit/unit-interval")); }
+    for _ in 0..40 * k { lp.push(((r.uniform(-700.0, 0.0)).exp(), "logit/near-0")); }
+    for _ in 0..40 * k { lp.push((1.0 - (r.uniform(-36.0, 0.0)).exp(), "logit/near-1")); }
+    for _ in 0..40 * k { lp.push((if r.coin(0.5) { -(r.uniform(-700.0, 3.0)).exp() } else { 1.0 + (r.uniform(-36.0, 10.0)).exp() }, "logit/malformed-outside")); }
+    for p in specials.iter().chain([1.0 - EPS / 2.0, 1.0 + EPS, 0.25, 0.75, 2.0, -0.5].iter()) { lp.push((*p, "logit/special")); }
+    for (p, tag) in lp {
+        let (t, e) = one(|| logit(p));
+        all.push((app("CLogit", vec![libm_table(&t), Tm::F(p), e]), tag.into(), p != 0.5));
+    }
+    // boxcox / boxcox_shifted
+    let lam = |r: &mut Rng, i: u64| -> f64 { match i % 8 { 0 => 0.0, 1 => r.uniform(-1e-8, 1e-8), 2 => -0.0, 3 => *r.pick(&[1.0, 2.0, -1.0, 0.5, -0.5, 3.0, 5.0, -5.0]), 4 => (r.uniform(-40.0, -18.0)).exp(), _ => r.uniform(-5.0, 5.0) } };
+    for i in 0..(300 * k as u64) {
+        let x = (r.uniform((1e-6f64).ln(), (1e6f64).ln())).exp();
+        let l = lam(&mut r, i);
+        let (t, e) = one(|| boxcox(x, l));
+        all.push((app("CBoxcox", vec![libm_table(&t), Tm::F(x), Tm::F(l), e]), if l == 0.0 { "boxcox/lambda=0".into() } else { "boxcox/power".into() }, true));
+        let a = match i % 4 { 0 => r.uniform(-2.0, 2.0) * x, 1 => (r.uniform((1e-6f64).ln(), (1e6f64).ln())).exp(), 2 => -(r.uniform((1e-6f64).ln(), (1e6f64).ln())).exp(), _ => r.uniform(-10.0, 10.0) };
+        let xs = if i % 3 == 0 { -x } else { x };
+        let (t, e) = one(|| boxcox_shifted(xs, l, a));
+        let tag = if !(xs + a > 0.0) { "boxcox_shifted/malformed-domain" } else if l == 0.0 { "boxcox_shifted/lambda=0" } else { "boxcox_shifted/power" };
+        all.push((app("CBoxcoxShifted", vec![libm_table(&t), Tm::F(xs), Tm::F(l), Tm::F(a), e]), tag.into(), true));
+    }
+    for x in specials { for l in [0.0, 1.0, -0.5, f64::NAN, f64::INFINITY] {
+        let (t, e) = one(|| boxcox(x, l));
+        all.push((app("CBoxcox", vec![libm_table(&t), Tm::F(x), Tm::F(l), e]), "boxcox/special".into(), true));
+        for a in [0.0, -0.0, 1.0, -1.0, f64::NAN, f64::INFINITY, f64::NEG_INFINITY] {
+            if r.coin(0.5) { continue; }
+            let (t, e) = one(|| boxcox_shifted(x, l, a));
+            all.push((app("CBoxcoxShifted", vec![libm_table(&t), Tm::F(x), Tm::F(l), Tm::F(a), e]), "boxcox_shifted/special".into(), true));
+        }
+    } }
+    // softmax: every length 0..=24, then every residue mod 8 at larger sizes, a few long ones (to 1000)
+    let mut lens: Vec<usize> = (0..=24).collect();
+    for _ in 0..(30 * k) { lens.push(25 + r.below(120) as usize); }
+    for j in 0..(4 * k) { lens.push(400 + 8 * r.below(70) as usize + (j as usize % 8)); }
+    lens.push(1000);
+    for (j, n) in lens.iter().enumerate() {
+        let reps = if *n <= 24 { 3 } else { 1 };
+        for rep in 0..reps {
+            let scale = *r.pick(&[1.0, 10.0, 100.0, 700.0, 1e4, 1e4]);
+            let mut x: Vec<f64> = (0..*n).map(|_| match rep { 0 => r.uniform(-scale, scale), 1 => r.small_int(12), _ => r.uniform(-scale, scale) }).collect();
+            let mut tag = if *n >= 2 { "softmax/finite" } else { "softmax/short" };
+            if *n > 0 && (j + rep) % 4 == 3 {
+                // special values: signed zeros, infinities, NaN, subnormals, ties
+                for _ in 0..(1 + n / 4) { let i = r.below(*n as u64) as usize; x[i] = *r.pick(&[0.0, -0.0, f64::INFINITY, f64::NEG_INFINITY, f64::NAN, 5e-324, -5e-324, 1e4, -1e4, 709.0, 710.0]); }
+                tag = "softmax/special-values";
+            }
+            if *n > 1 && (j + rep) % 9 == 5 { let c = *r.pick(&[0.0, -0.0, 3.5, -1e4, 1e4]); for v in x.iter_mut() { *v = c; } tag = "softmax/constant"; }
+            let xc = x.clone();
+            let (t, e) = many(|| softmax(&xc));
+            let nontrivial = *n >= 2 && x.iter().any(|v| v.to_bits() != x[0].to_bits());
+            all.push((app("CSoftmax", vec![libm_table(&t), fl(&x), e]), tag.into(), nontrivial));
+        }
+    }
+    for x in [vec![f64::NAN], vec![f64::NEG_INFINITY], vec![f64::INFINITY], vec![f64::NEG_INFINITY, f64::NEG_INFINITY], vec![f64::NAN, 1.0], vec![1.0, f64::NAN], vec![0.0, -0.0], vec![-0.0, 0.0], vec![-0.0], vec![-0.0, -0.0, 0.0],
+              vec![f64::NAN, f64::NAN, 2.0, f64::NEG_INFINITY], vec![1000.0, 1000.0], vec![f64::INFINITY, 1.0], vec![f64::INFINITY, f64::INFINITY]] {
+        let xc = x.clone();
+        let (t, e) = many(|| softmax(&xc));
+        all.push((app("CSoftmax", vec![libm_table(&t), fl(&x), e]), "softmax/special-values".into(), x.len() >= 2));
+    }
+    // binom_coeff: all n <= 67 exhaustively (k <= n), n in 68..=140 (wrap-around / guard regime), k > n (malformed), large n
+    let dbg = cfg!(debug_assertions);
+    let mut bin = |n: u64, k: u64, tag: &str, all: &mut Vec<(Tm, String, bool)>| {
+        let res = catch(|| binom_coeff(n, k));
+        all.push((app("CBinom", vec![Tm::B(dbg), Tm::N(n), Tm::N(k), out_n(&res)]), tag.into(), k >= 1 && k < n));
+    };
+    for n in 0..=67u64 { for kk in 0..=n { bin(n, kk, "binom/n<=67", &mut all); } }
+    let up = if thorough { 140 } else { 100 };
+    for n in 68..=up { for kk in 0..=n { if thorough || (n + kk) % 3 == 0 || kk + 1 >= n / 2 && kk <= n / 2 + 1 { bin(n, kk, "binom/68..:overflow-regime", &mut all); } } }
+    for _ in 0..(40 * k) { let n = r.below(60); let kk = n + 1 + r.below(40); bin(n, kk, "binom/malformed:k>n", &mut all); }
+    for i in 0..(400 * k as u64) {
+        let bits = 7 + r.below(58);
+        let n = if i % 40 == 0 { u64::MAX - r.below(1000) } else { (1u64 << (bits - 1)) | (r.next() & ((1u64 << (bits - 1)) - 1)) };
+        let k0 = match i % 4 { 0 => r.below(4), 1 => r.below(33), 2 => r.below(80), _ => r.below(12) }.min(n);
+        let kk = if r.coin(0.3) { n - k0 } else { k0 };
+        let tag = if binom_u128(n, kk).is_some() { "binom/large-n:fits" } else { "binom/large-n:overflow" };
+        bin(n, kk, tag, &mut all);
+    }
+    for n in [1000u64, 5000, 20000] { bin(n, 2, "binom/large-n:fits", &mut all); bin(n, n - 3, "binom/large-n:fits", &mut all); bin(2 * n, n, "binom/large-n:overflow", &mut all); }
+
+    // binom_coeff_alt (gamma-based): all k <= n <= 40 (100 thorough), sampled up to n = 400 (gamma overflows beyond 171)
+    let mut alt = |n: u64, kk: u64, all: &mut Vec<(Tm, String, bool)>| {
+        libm::start();
+        let res = catch(|| binom_coeff_alt(n, kk));
+        let t = libm::stop();
+        let tag = if n <= 48 { "binom_alt/exact-range" } else if n <= 170 { "binom_alt/approximate" } else { "binom_alt/gamma-overflow" };
+        all.push((app("CBinomAlt", vec![libm_table(&t), Tm::N(n), Tm::N(kk), out_n(&res)]), tag.into(), kk >= 1 && kk < n));
+    };
+    let full = if thorough { 100 } else { 40 };
+    for n in 0..=full { for kk in 0..=n { alt(n, kk, &mut all); } }
+    for _ in 0..(150 * k) { let n = full + 1 + r.below(400 - full); let kk = r.below(n + 1); alt(n, kk, &mut all); }
+    for n in [170u64, 171, 172, 1000, 1u64 << 40] { alt(n, 0, &mut all); alt(n, 1, &mut all); alt(n, n / 2, &mut all); alt(n, n, &mut all); }
+
+    // deterministic shuffle so that the long softmax cases spread over the shards
+    for i in (1..all.len()).rev() { let j = r.below(i as u64 + 1) as usize; all.swap(i, j); }
+    let mut cs = Cases::new("C17");
+    for (t, tag, nt) in all { cs.push(t, &tag, nt); }
+    cs.write(outdir, 400, "logistic on +-40, +-745, tiny, integer and special arguments; logit on [0,1], near both ends, outside (panics) and specials; boxcox/boxcox_shifted with x log-uniform in (1e-6,1e6), lambda in +-5 incl. 0, -0, |lambda| < 1e-8 and 1e-18..1e-8, shifts of both signs, out-of-domain and special arguments; softmax at every length 0..24, random lengths to 144, every residue mod 8 in 400..960, length 1000, entries to +-1e4, signed zeros/inf/NaN/subnormals/ties/constant vectors; binom_coeff_alt (gamma-based, model = C09's gamma + ln/exp/round + saturating cast) for all k <= n <= 40 (100 thorough) and sampled n to 400; binom_coeff for ALL 0 <= k <= n <= 67, n in 68..100 (140 thorough) where values wrap or the guard fires, k > n, and n up to 2^64-1 with small k or n-k; each transform case carries the libm calls the implementation made; non-trivial = logistic x != 0, logit p != 1/2, softmax length >= 2 and not constant, binom 1 <= k < n; distinct by hash of the case term");
+}
